@@ -243,18 +243,27 @@ def work(unit):
         wz = exact_reference(inputs, output, sd, zb)
         if np.any(np.asarray(wz, dtype=object) != 0):
             for nested in U.all_trees(range(n)):
-                tree = nets.build_tree(inputs, output, sd, nested)
-                tree.remove_ind_(ix)
-                res.evals += 1
                 bad = []
-                try:
-                    m, e = tree.contract([b.astype("float64") for b in zb],
-                                         strip_exponent=True,
-                                         check_zero=True)
-                    check_pair(m, e, wz, 0, "zero-slice[check_zero=True]",
-                               bad)
-                except Exception as ex:
-                    bad.append(("zero-slice:raises", repr(ex)))
+                # histories on one tree object: the zero data either first,
+                # or after an ordinary strip_exponent call with the default
+                # check_zero=False (compiled contractors are cached per tree)
+                for warm in (False, True):
+                    tree = nets.build_tree(inputs, output, sd, nested)
+                    tree.remove_ind_(ix)
+                    res.evals += 1
+                    try:
+                        if warm:
+                            tree.contract([b.astype("float64")
+                                           for b in base],
+                                          strip_exponent=True)
+                        m, e = tree.contract(
+                            [b.astype("float64") for b in zb],
+                            strip_exponent=True, check_zero=True)
+                        check_pair(m, e, wz, 0,
+                                   f"zero-slice[check_zero=True,after-"
+                                   f"plain-call={warm}]", bad)
+                    except Exception as ex:
+                        bad.append(("zero-slice:raises", repr(ex)))
                 if bad:
                     res.violation("strip-exponent:zero-slice",
                                   {"inputs": inputs, "output": output,
